@@ -20,6 +20,7 @@ import (
 	"path/filepath"
 	"sort"
 	"strings"
+	"sync"
 	"testing"
 
 	vs "github.com/BlackVectorOps/semantic_firewall/v3/internal/verifsim"
@@ -32,6 +33,7 @@ import (
 )
 
 type truthFunc struct {
+	name    string // how the tool names it to the signature scanner ("F", "(*T).M", "(T).M"); "" for literals and generic receivers
 	line    int    // physical line in the file
 	adjFile string // file name after //line directives ("" = the file itself)
 	adjLine int
@@ -65,10 +67,10 @@ func funcLines(src string) ([]int, []truthFunc, error) {
 	}
 	var lines []int
 	var funcs []truthFunc
-	add := func(pos token.Pos) {
+	add := func(pos token.Pos, name string) {
 		raw := fset.PositionFor(pos, false)
 		adj := fset.PositionFor(pos, true)
-		tf := truthFunc{line: raw.Line, adjLine: adj.Line}
+		tf := truthFunc{name: name, line: raw.Line, adjLine: adj.Line}
 		if adj.Filename != raw.Filename {
 			tf.adjFile = filepath.Base(adj.Filename)
 		}
@@ -79,10 +81,28 @@ func funcLines(src string) ([]int, []truthFunc, error) {
 		switch x := n.(type) {
 		case *ast.FuncDecl:
 			if x.Body != nil {
-				add(x.Name.Pos())
+				name := x.Name.Name
+				if x.Recv != nil && len(x.Recv.List) == 1 {
+					switch r := x.Recv.List[0].Type.(type) {
+					case *ast.StarExpr:
+						if id, ok := r.X.(*ast.Ident); ok {
+							name = "(*" + id.Name + ")." + name
+						} else {
+							name = ""
+						}
+					case *ast.Ident:
+						name = "(" + r.Name + ")." + name
+					default:
+						name = ""
+					}
+				}
+				if name == "init" || name == "_" {
+					name = "" // several per package are legal; the tool numbers them
+				}
+				add(x.Name.Pos(), name)
 			}
 		case *ast.FuncLit:
-			add(x.Type.Func)
+			add(x.Type.Func, "")
 		}
 		return true
 	})
@@ -601,6 +621,7 @@ func TestVerifC16(t *testing.T) {
 // ---- scanner-fault configuration: every fingerprinted function is also scanned ----
 
 type recScanner struct {
+	mu       sync.Mutex
 	inner    SignatureScanner
 	called   map[string]int
 	n        int
@@ -610,18 +631,25 @@ type recScanner struct {
 }
 
 func (r *recScanner) ScanTopology(topo *topology.FunctionTopology, funcName string) ([]detection.ScanResult, error) {
+	r.mu.Lock()
 	r.n++
 	r.called[funcName]++
-	if (r.failAt > 0 && r.n == r.failAt) || (r.failName != "" && funcName == r.failName) {
+	fail := (r.failAt > 0 && r.n == r.failAt) || (r.failName != "" && funcName == r.failName)
+	if fail {
 		r.fired++
+	}
+	r.mu.Unlock()
+	if fail {
 		return nil, fmt.Errorf("simulated transient backend error")
 	}
 	return r.inner.ScanTopology(topo, funcName)
 }
 
 func (r *recScanner) ScanTopologyExact(topo *topology.FunctionTopology, funcName string) (*detection.ScanResult, error) {
+	r.mu.Lock()
 	r.n++
 	r.called[funcName]++
+	r.mu.Unlock()
 	return r.inner.ScanTopologyExact(topo, funcName)
 }
 
@@ -652,6 +680,61 @@ func runC16Scanner(t *vs.Tape, cfg map[string]string) (res vs.Result) {
 		}
 	}
 	sort.Strings(rels)
+	// Half of the evaluations take the scan command's path over the whole tree
+	// (CollectFiles + RunScanParallel) with the recording scanner: every declared
+	// function and method of every analysable file must be handed to the scanner
+	// under its own name, as often as it is declared in the tree.
+	if t.Chance("scanpath", 1, 2) && tr.seed%16 != 11 {
+		w := &recScanner{inner: js, called: map[string]int{}}
+		if t.Chance("scanpath.fault", 1, 3) {
+			w.failAt = 1 + t.Intn(20, "scanpath.fault.at")
+		}
+		exact := t.Chance("scanpath.exact", 1, 4)
+		mp := vs.Pick(t, "gomaxprocs", 4, 1, 16)
+		old := runtimeGOMAXPROCS(mp)
+		var total int
+		var rerr error
+		_, _ = captureBoth(func() {
+			files, err := CollectFiles(RealFileSystem{}, tr.target)
+			if err != nil {
+				rerr = err
+				return
+			}
+			_, total, rerr = RunScanParallel(RealFileSystem{}, files, w, exact)
+		})
+		runtimeGOMAXPROCS(old)
+		res.Digest = vs.Hash("scanpath", fmt.Sprint(seed, exact, mp, w.failAt))
+		res.Nontrivial = true
+		res.Sample = map[string]any{"corpus": seed, "mode": "scan path, whole tree", "functions_scanned": total, "scanner_calls": w.n}
+		c.Inc("scan_path_trees")
+		if rerr != nil {
+			res.Violation = vs.Violationf("C16/scan-failed", "RunScanParallel on a readable tree failed: %v", rerr)
+			return
+		}
+		need := map[string]int{}
+		where := map[string]string{}
+		for _, rel := range rels {
+			for _, f := range tr.files[rel].funcs {
+				if f.name != "" {
+					need[f.name]++
+					where[f.name] = fmt.Sprintf("%s:%d", rel, f.line)
+				}
+			}
+		}
+		names := make([]string, 0, len(need))
+		for n := range need {
+			names = append(names, n)
+		}
+		sort.Strings(names)
+		for _, n := range names {
+			if w.called[n] < need[n] {
+				res.Violation = vs.Violationf("C16/scan-function-not-scanned", "scan path: %s is declared %d time(s) in the analysable files of the tree (e.g. %s) but was handed to the signature scanner %d time(s)", n, need[n], where[n], w.called[n])
+				return
+			}
+			c.Add("scan_path_functions_accounted", int64(need[n]))
+		}
+		return
+	}
 	rel := rels[t.Intn(len(rels), "file")]
 	strict := t.Chance("strict", 1, 2)
 	w := &recScanner{inner: js, called: map[string]int{}}
